@@ -38,12 +38,6 @@ def colNames (t : Table) (cols : List Nat) : R Str := do
     pure ('"' :: c.name ++ ['"'])
   pure (joinWith (lit ", ") names)
 
-/-- the `.format(c=…)` call of `render_reference` runs over user text: a brace anywhere in it is a
-    replacement field Python cannot resolve (`KeyError`/`IndexError`/`ValueError`). -/
-def formatSafe (userText : Str) : R Unit :=
-  if containsChar '{' userText || containsChar '}' userText then .error (.internal .KeyError)
-  else .ok ()
-
 def typeText (db : Db) (c : Column) : R Str :=
   match c.type with
   | .plain s => pure s
@@ -87,7 +81,7 @@ def optComment (cm : Option Str) : Str :=
   | some (x :: xs) => commentToSql (x :: xs)
   | _ => []
 
-/-- `render_index` (`ON` names the bare table name, as the code does). -/
+/-- `render_index` (`ON` names the table as qualified as in its `CREATE TABLE`). -/
 def renderIndex (t : Table) (ix : Index) : R Str := do
   let keys := joinWith (lit ", ") (← ix.subjects.mapM (renderSubject t))
   if ix.pk then
@@ -97,7 +91,7 @@ def renderIndex (t : Table) (ix : Index) : R Str := do
       ++ (if ix.unique then lit "UNIQUE " else [])
       ++ lit "INDEX "
       ++ (if truthy ix.name then '"' :: ix.name.getD [] ++ lit "\" " else [])
-      ++ lit "ON \"" ++ t.name ++ lit "\" "
+      ++ lit "ON " ++ qualName t.schema t.name ++ [' ']
       ++ (if truthy ix.type then lit "USING " ++ upperAscii (ix.type.getD []) ++ [' '] else [])
       ++ '(' :: keys ++ lit ");")
 
@@ -124,16 +118,13 @@ def renderInlineRef (db : Db) (r : Ref) : R Str := do
   let dst ← colNames rtT rc
   let cm := optComment r.comment
   let full := qualName rtT.schema rtT.name
-  formatSafe (cm ++ src ++ full ++ dst)
   pure (cm ++ constraintText r ++ lit "FOREIGN KEY (" ++ src ++ lit ") REFERENCES " ++ full
         ++ lit " (" ++ dst ++ [')'] ++ onClauses r)
 
-/-- `generate_not_inline_sql` before `.format`: (text, user text subject to `.format`). -/
-def notInlineParts (r : Ref) (srcFull src dstFull dst : Str) (c : Str) : Str × Str :=
-  let cm := optComment r.comment
-  (cm ++ lit "ALTER TABLE " ++ srcFull ++ lit " ADD " ++ c ++ lit "FOREIGN KEY (" ++ src
-     ++ lit ") REFERENCES " ++ dstFull ++ lit " (" ++ dst ++ [')'] ++ onClauses r ++ [';'],
-   cm ++ srcFull ++ src ++ dstFull ++ dst)
+/-- `generate_not_inline_sql` with the constraint text `c` filled in. -/
+def notInlineParts (r : Ref) (srcFull src dstFull dst : Str) (c : Str) : Str :=
+  optComment r.comment ++ lit "ALTER TABLE " ++ srcFull ++ lit " ADD " ++ c ++ lit "FOREIGN KEY (" ++ src
+     ++ lit ") REFERENCES " ++ dstFull ++ lit " (" ++ dst ++ [')'] ++ onClauses r ++ [';']
 
 def renderNotInlineRef (db : Db) (r : Ref) : R Str := do
   let ((st, sc), (rt, rc)) := refSides r
@@ -141,10 +132,8 @@ def renderNotInlineRef (db : Db) (r : Ref) : R Str := do
   let rtT ← getD? db.tables rt "ref table position"
   let src ← colNames stT sc
   let dst ← colNames rtT rc
-  let (txt, user) := notInlineParts r (qualName stT.schema stT.name) src
-      (qualName rtT.schema rtT.name) dst (constraintText r)
-  formatSafe user
-  pure txt
+  pure (notInlineParts r (qualName stT.schema stT.name) src
+      (qualName rtT.schema rtT.name) dst (constraintText r))
 
 /-- `get_inline_references_for_sql`: the inline references whose key holder is table `ti`. -/
 def inlineRefsFor (db : Db) (ti : Nat) (t : Table) : List Ref :=
@@ -212,9 +201,8 @@ def renderManyToMany (db : Db) (r : Ref) : R Str := do
   let q (cs : List Column) : Str := joinWith (lit ", ") (cs.map fun c => '"' :: c.name ++ ['"'])
   let d1 ← colNames t1 r.col1
   let d2 ← colNames t2 r.col2
-  let (r1, u1) := notInlineParts r jfull (q jc1) (qualName t1.schema t1.name) d1 []
-  let (r2, u2) := notInlineParts r jfull (q jc2) (qualName t2.schema t2.name) d2 []
-  formatSafe (tableSql ++ u1 ++ u2)
+  let r1 := notInlineParts r jfull (q jc1) (qualName t1.schema t1.name) d1 []
+  let r2 := notInlineParts r jfull (q jc2) (qualName t2.schema t2.name) d2 []
   pure (tableSql ++ lit "\n\n" ++ r1 ++ lit "\n\n" ++ r2)
 
 /-- `render_reference` at database level (non-inline references only reach this). -/
